@@ -38,6 +38,24 @@ def start_dates(rng):
     return d
 
 
+def span_quantity(rng, u, span_h):
+    """a time span of span_h whole hours, written the various ways a caller may write it"""
+    form = rng.choice(["day", "day", "hour", "seconds", "day+seconds", "day+seconds", "day+hours", "week+day"])
+    d, h = divmod(span_h, 24)
+    if form == "day":
+        return span_h / 24 * u.day
+    if form == "hour":
+        return span_h * u.hour
+    if form == "seconds":
+        return span_h * 3600 * u.second
+    if form == "day+seconds":
+        return d * u.day + h * 3600 * u.second
+    if form == "day+hours":
+        return d * u.day + h * u.hour
+    w, dd = divmod(d, 7)
+    return w * u.week + dd * u.day + h * u.hour
+
+
 def record_calls(ns, rng, n, tid0=0):
     from efootprint.builders import time_builders as tb
     u = ns.u
@@ -59,23 +77,23 @@ def record_calls(ns, rng, n, tid0=0):
             e.update(fn="list", list=lst)
         elif fn == "frequency":
             freq = rng.choice(["daily", "weekly", "monthly", "yearly"])
-            span_h = rng.choice([24, 48, 36, 24 * 7, 24 * 35 + 5, 24 * 62, 0, 24 * 400 if freq == "yearly" else 24 * 10])
+            span_h = rng.choice([24, 48, 36, 47, 23, 24 * 7, 24 * 35 + 5, 24 * 62, 0, 24 * 400 if freq == "yearly" else 24 * 10])
             days = None
             if freq != "daily" and rng.random() < 0.7:
                 days = sorted({rng.choice({"weekly": [0, 1, 5, 6], "monthly": [1, 15, 28, 29, 30, 31],
                                            "yearly": [1, 59, 60, 61, 365, 366]}[freq]) for _ in range(rng.choice([1, 2]))})
             hours = sorted({rng.randint(0, 23) for _ in range(rng.choice([1, 2, 3]))}) if rng.random() < 0.7 else None
             vol = rng.choice([1, 5, 1000])
-            src = tb.create_hourly_usage_from_frequency(span_h / 24 * u.day, vol, freq, days, hours, start, pu)
+            src = tb.create_hourly_usage_from_frequency(span_quantity(rng, u, span_h), vol, freq, days, hours, start, pu)
             df = src.value
             e.update(fn="frequency", span=span_h, volume=vol, freq=freq, days=days or [], days_given=days is not None,
                      hours=hours or [], hours_given=hours is not None)
         elif fn == "daily_volume":
             hours = sorted({rng.randint(0, 23) for _ in range(rng.choice([1, 2, 3, 4]))})
             per_hour = rng.choice([1, 5, 250])
-            span_h = rng.choice([24, 72, 24 * 10 + 7, 36])
+            span_h = rng.choice([24, 72, 24 * 10 + 7, 36, 47, 71])
             src = tb.create_hourly_usage_from_daily_volume_and_list_of_hours(
-                span_h / 24 * u.day, per_hour * len(hours), hours, start, pu)
+                span_quantity(rng, u, span_h), per_hour * len(hours), hours, start, pu)
             df = src.value
             e.update(fn="daily_volume", span=span_h, volume=per_hour * len(hours), per_hour=per_hour, hours=hours)
         elif fn == "linear":
